@@ -327,6 +327,9 @@ ATTACKS = {
     "userdata_metatable_writable": "local mt = getmetatable(mw_python_get_page_info); if type(mt) ~= 'table' then return 'no' end local ok = pcall(function() mt.__c06probe = 1 end); local w = ok and mt.__c06probe == 1; if w then mt.__c06probe = nil end return w and 'GOT writable metatable shared by all Python objects' or 'no'",
     "userdata_gc_callable": "local mt = getmetatable(frame.preprocess); return (type(mt) == 'table' and type(mt.__gc) == 'function') and 'GOT __gc of Python objects' or 'no'",
     "bytecode_page_is_loaded": "local ok, r = pcall(require, 'Module:bcpage'); return (ok and r == 'RAN-FROM-BYTECODE') and 'GOT precompiled chunk executed' or 'no'",
+    # the same after page code has replaced functions of the shared string table (reachable through the string metatable):
+    # what the loaders rely on must not be something a page can swap
+    "bytecode_page_after_string_table_override": "local s = getmetatable('').__index; local saved = {} for _, k in ipairs({'byte', 'sub', 'find', 'char', 'len', 'match'}) do saved[k] = s[k] end s.byte = function() return 0 end s.sub = function() return '' end s.find = function() return nil end s.match = function() return nil end local ok, r = pcall(require, 'Module:bcpage2') for k, v in pairs(saved) do s[k] = v end return (ok and r == 'RAN-FROM-BYTECODE') and 'GOT precompiled chunk executed after replacing string.byte' or 'no'",
     "string_dump_available": "return (string.dump ~= nil) and 'GOT string.dump' or 'no'",
     "python_exception_object": "local ok, e = pcall(mw_python_get_page_content); return (not ok and type(e) ~= 'string') and ('GOT error value of type ' .. type(e)) or 'no'",
     "python_exception_object_xpcall": "local seen; xpcall(function() mw_python_get_page_content() end, function(e) seen = type(e) return e end); return (seen ~= nil and seen ~= 'string') and ('GOT handler sees ' .. seen) or 'no'",
@@ -437,6 +440,7 @@ def run_attacks():
     n = 0
     ctx.add_page("Module:warm", 828, "local e = {} function e.f(frame) return 'w' end return e", model="Scribunto")
     ctx.add_page("Module:bcpage", 828, lua51_chunk("RAN-FROM-BYTECODE"), model="Scribunto")
+    ctx.add_page("Module:bcpage2", 828, lua51_chunk("RAN-FROM-BYTECODE"), model="Scribunto")
     ctx.start_page("Tt")
     ctx.expand("{{#invoke:warm|f}}")   # initialises the sandbox (this writes the bootstrap page once)
     for name, code in sorted(ATTACKS.items()):
